@@ -36,20 +36,20 @@ func runC12Shared(c *sim.Ctx, t *testing.T) {
 		c.Infra = "generated spec does not compile: " + err.Error()
 		return
 	}
-	ctx := context.Background()
 	nw := 2 + c.Intn(5, "nwalkers")
 	type walker struct {
 		start ref.State
 		hist  []interface{}
 		solo  []string
 		got   []string
+		ctx   context.Context
 	}
 	ws := make([]*walker, nw)
 	ctl := &core.Control{Limit: 8}
 	walkAll := func(w *walker, out *[]string) {
 		st := toState(w.start)
 		for _, m := range w.hist {
-			wk, _ := spec.Walk(ctx, st, []interface{}{ref.CopyVal(m)}, ctl, nil)
+			wk, _ := spec.Walk(w.ctx, st, []interface{}{ref.CopyVal(m)}, ctl, nil)
 			*out = append(*out, walkedCanon(wk))
 			if wk != nil {
 				if to := wk.To(); to != nil {
@@ -66,11 +66,30 @@ func runC12Shared(c *sim.Ctx, t *testing.T) {
 		if c.Bool("boundineq") {
 			w.start.Bs[ineqName] = []interface{}{1.0, 2.0, 10.0}[c.Intn(3, "bound")]
 		}
+		w.ctx = context.Background()
 		ws[i] = w
+	}
+	// the fault: one walker's context is cancelled at some point while the others
+	// are at work.  Only that walker's results may differ from what it gets alone.
+	victim := -1
+	cancelAfter := 0
+	if c.Chance(1, 3, "cancelfault") {
+		victim = c.Intn(nw, "victim")
+		cancelAfter = c.Intn(24, "cancelafter")
 	}
 	sim.Uninstall()
 	sim.Bubble(c, t, func(s *sim.Sched) {
 		s.MaxSteps = 8000
+		if victim >= 0 {
+			vctx, cancel := context.WithCancel(context.Background())
+			ws[victim].ctx = vctx
+			s.Go("canceller", func(tk *sim.Task) {
+				for k := 0; k < cancelAfter; k++ {
+					sim.Yield("h#cancel-wait")
+				}
+				cancel()
+			})
+		}
 		for i, w := range ws {
 			w := w
 			s.Go(fmt.Sprintf("w%d", i), func(tk *sim.Task) { walkAll(w, &w.got) })
@@ -78,6 +97,12 @@ func runC12Shared(c *sim.Ctx, t *testing.T) {
 		s.Run()
 		s.Drain(500)
 	})
+	for _, w := range ws {
+		w.ctx = context.Background()
+	}
+	if victim >= 0 {
+		c.Count("walker_contexts_cancelled")
+	}
 	conc := c.Sched
 	// afterwards the same walks alone, for comparison (afterwards, so that the
 	// sequential phase cannot warm anything up for the concurrent one)
@@ -95,6 +120,9 @@ func runC12Shared(c *sim.Ctx, t *testing.T) {
 		return
 	}
 	for i, w := range ws {
+		if i == victim {
+			continue
+		}
 		if len(w.got) != len(w.solo) {
 			c.Violate("shared:incomplete", "walker %d finished %d of %d walks (stuck: %v)", i, len(w.got), len(w.solo), conc.Stuck)
 			continue
